@@ -307,6 +307,8 @@ def ptrace_index(p):
     Xin = _layout(X, p)
     if form == "omitted":
         got = partial_trace(Xin) if p.get("sys_omitted") else partial_trace(Xin, sys_arg)
+    elif p.get("sys_omitted"):  # `sys` omitted, `dim` given: the second subsystem is traced out
+        got = partial_trace(Xin, dim=dim)
     else:
         got = partial_trace(Xin, sys_arg, dim)
     exp = R.ref_partial_trace(X, S, d)
@@ -400,7 +402,10 @@ def ptranspose_index(p):
     else:
         dim = None
     Xin = _layout(X, p)
-    got = partial_transpose(Xin, sys_arg, dim) if dim is not None else partial_transpose(Xin, sys_arg)
+    if p.get("sys_omitted"):  # `sys` not passed: the second subsystem is transposed
+        got = partial_transpose(Xin, dim=dim) if dim is not None else partial_transpose(Xin)
+    else:
+        got = partial_transpose(Xin, sys_arg, dim) if dim is not None else partial_transpose(Xin, sys_arg)
     _eq(got, R.ref_partial_transpose(X, S, rd, cd), "partial_transpose")
 
 
@@ -431,16 +436,35 @@ def ptranspose_cvxpy(p):
     d = p["dims"]
     N = int(np.prod(d))
     rng = np.random.default_rng(p.get("seed", 0))
-    if p.get("var") == "real":
+    kind = p.get("var", "complex")
+    A = rng.standard_normal((N, N)) + 1j * rng.standard_normal((N, N))
+    if kind == "real":
         V = cvxpy.Variable((N, N))
-        val = rng.standard_normal((N, N))
+        val = A.real
+    elif kind == "hermitian":  # a complex Hermitian variable: its lower triangle is the conjugate of the upper one
+        V = cvxpy.Variable((N, N), hermitian=True)
+        val = (A + A.conj().T) / 2
+    elif kind == "symmetric":
+        V = cvxpy.Variable((N, N), symmetric=True)
+        val = (A.real + A.real.T) / 2
+    elif kind == "expression":  # an affine expression of a Hermitian variable, not a bare Variable
+        W = cvxpy.Variable((N, N), hermitian=True)
+        W.value = (A + A.conj().T) / 2
+        V = 2 * W + np.eye(N)
+        val = 2 * W.value + np.eye(N)
     else:
         V = cvxpy.Variable((N, N), complex=True)
-        val = rng.standard_normal((N, N)) + 1j * rng.standard_normal((N, N))
-    V.value = val
+        val = A
+    if kind != "expression":
+        V.value = val
     S = list(p["sys"])
-    got = partial_transpose(V, S, list(d))
-    _close(np.asarray(got.value), R.ref_partial_transpose(val, S, d, d), "partial_transpose(cvxpy Variable)", 1e-10)
+    sf = p.get("sysform", "list")
+    sys_arg = int(S[0]) if sf == "int" else (np.array(S) if sf == "array" else S)
+    got = partial_transpose(V, sys_arg, list(d))
+    if not hasattr(got, "value"):
+        raise Violation("partial_transpose(cvxpy expression) did not return a cvxpy expression")
+    _close(np.asarray(got.value), R.ref_partial_transpose(val, S, d, d), "partial_transpose(cvxpy %s, sys given as %s)" % (kind, sf), 1e-10)
+    _close(np.asarray(got.value), partial_transpose(val, sys_arg, list(d)), "variable path == numeric path (%s, sys as %s)" % (kind, sf), 1e-12)
 
 
 def realign_index(p):
